@@ -227,11 +227,14 @@ Fixpoint all_vecs (os : list obs) : option (list (list Q)) :=
   | ObsVec g :: r => match all_vecs r with Some gs => Some (g :: gs) | None => None end
   | _ :: _ => None
   end.
+(* a factor evaluated outside its support hands back a NaN vector: the sum is then NaN (numpy addition), unless some
+   other factor refuses, which refuses the whole call *)
+Definition is_vec_or_nan (o : obs) : bool := match o with ObsVec _ | ObsNaN => true | _ => false end.
+Definition is_nan_obs (o : obs) : bool := match o with ObsNaN => true | _ => false end.
 Definition check_sum_obs (guard : bool) (parts : list obs) (total : obs) : bool :=
-  match (if guard then all_vecs parts else None) with
-  | Some gs => match total with ObsVec t => check_sum gs t | _ => false end
-  | None => match total with ObsRaised => true | _ => false end
-  end.
+  if negb guard || negb (forallb is_vec_or_nan parts) then match total with ObsRaised => true | _ => false end
+  else if existsb is_nan_obs parts then is_nan_obs total
+  else match all_vecs parts, total with Some gs, ObsVec t => check_sum gs t | _, _ => false end.
 
 (* ------------------------------------------------------------------------------------------
    forward-difference fallback: entry i is (logd(x + eps e_i) - logd(x)) / eps of the SAME logd *)
